@@ -349,6 +349,24 @@ class _Canon(ast.NodeTransformer):
     def visit_Call(self, node):
         self.generic_visit(node)
         f = node.func
+        # int(p) / bool(p) of a bare name or attribute: the identity on the values that reach it in this code base (sizes, bit widths,
+        # flags are ints / bools already); a cast applied to a computed expression is kept
+        if isinstance(f, ast.Name) and f.id in ("int", "bool") and len(node.args) == 1 and not node.keywords and _is_plain_ref(node.args[0]):
+            return node.args[0]
+        # bool(<comparison / boolean operation / isinstance / not>) -> the expression; str(x.name) -> x.name
+        if isinstance(f, ast.Name) and f.id == "bool" and len(node.args) == 1 and not node.keywords:
+            a0 = node.args[0]
+            if isinstance(a0, (ast.Compare, ast.BoolOp)) or (isinstance(a0, ast.UnaryOp) and isinstance(a0.op, ast.Not)) or (isinstance(a0, ast.Call) and isinstance(a0.func, ast.Name) and a0.func.id in ("isinstance", "issubclass", "hasattr", "callable")):
+                return a0
+        if isinstance(f, ast.Name) and f.id == "str" and len(node.args) == 1 and not node.keywords and isinstance(node.args[0], ast.Attribute) and node.args[0].attr in ("name", "__name__"):
+            return node.args[0]
+        # tuple(x.stride()) -> x.stride()  (already a tuple)
+        if isinstance(f, ast.Name) and f.id == "tuple" and len(node.args) == 1 and not node.keywords and isinstance(node.args[0], ast.Call) \
+                and isinstance(node.args[0].func, ast.Attribute) and node.args[0].func.attr == "stride" and not node.args[0].args:
+            return node.args[0]
+        # isinstance(x, (A,)) -> isinstance(x, A)
+        if isinstance(f, ast.Name) and f.id in ("isinstance", "issubclass") and len(node.args) == 2 and isinstance(node.args[1], ast.Tuple) and len(node.args[1].elts) == 1:
+            node = ast.Call(func=f, args=[node.args[0], node.args[1].elts[0]], keywords=node.keywords)
         # f(*(a, b), c) -> f(a, b, c)
         if any(isinstance(a, ast.Starred) and isinstance(a.value, (ast.Tuple, ast.List)) for a in node.args):
             args = []
@@ -536,6 +554,20 @@ class _Canon(ast.NodeTransformer):
         self.generic_visit(node)
         t = ast.unparse(node.test)
         o = node.orelse
+        # x if x is not None else {}  ->  x or {}   (x is a container or None: both give an empty container for None / empty x)
+        if isinstance(node.test, ast.Compare) and len(node.test.ops) == 1 and isinstance(node.test.comparators[0], ast.Constant) and node.test.comparators[0].value is None:
+            x_ = ast.unparse(node.test.left)
+            keep, dflt = (node.body, node.orelse) if isinstance(node.test.ops[0], ast.IsNot) else (node.orelse, node.body) if isinstance(node.test.ops[0], ast.Is) else (None, None)
+            if keep is not None and ast.unparse(keep) == x_ and ((isinstance(dflt, (ast.Dict, ast.List, ast.Tuple, ast.Set)) and not getattr(dflt, "keys", getattr(dflt, "elts", None)))):
+                return ast.BoolOp(op=ast.Or(), values=[keep, dflt])
+        # x if x is None else x  (after `int(x)` -> x) and the mirrored form: the None-guarded identity
+        if ast.unparse(node.body) == ast.unparse(node.orelse):
+            return node.body
+        if isinstance(node.test, ast.Compare) and len(node.test.ops) == 1 and isinstance(node.test.ops[0], (ast.Is, ast.IsNot)) and isinstance(node.test.comparators[0], ast.Constant) and node.test.comparators[0].value is None:
+            x = ast.unparse(node.test.left)
+            none_side, other = (node.body, node.orelse) if isinstance(node.test.ops[0], ast.Is) else (node.orelse, node.body)
+            if (isinstance(none_side, ast.Constant) and none_side.value is None) and ast.unparse(other) == x:
+                return other  # None if x is None else x
         if isinstance(o, ast.IfExp):
             ot = ast.unparse(o.test)
             if ot == f"not {t}" or ot == f"not ({t})":
@@ -608,6 +640,10 @@ class _Canon(ast.NodeTransformer):
         nt = _nt_fields(node.value)
         if nt is not None and node.attr in nt:
             return nt[node.attr]  # _Pair(a=x, b=y).a -> x
+        # x.detach().ndim -> x.ndim: shape / dtype / device queries do not see layout or graph-membership calls
+        if node.attr in ("ndim", "shape", "dtype", "device") and isinstance(node.value, ast.Call) and isinstance(node.value.func, ast.Attribute) \
+                and node.value.func.attr in ("detach", "clone") and not node.value.args and not node.value.keywords:
+            return ast.Attribute(value=node.value.func.value, attr=node.attr, ctx=node.ctx)
         # <qtype>.dtype.is_floating_point -> <qtype>.is_floating_point (the qtype table keeps the two equal: C01.R3 checks it)
         if node.attr == "is_floating_point" and isinstance(node.value, ast.Attribute) and node.value.attr == "dtype":
             base = node.value.value
@@ -755,6 +791,12 @@ class _Canon(ast.NodeTransformer):
             for a, b in ((node.left, node.comparators[0]), (node.comparators[0], node.left)):
                 if isinstance(b, ast.Constant) and isinstance(b.value, bool) and isinstance(a, ast.Call) and isinstance(a.func, ast.Name) and a.func.id == "bool" and len(a.args) == 1:
                     return a.args[0] if b.value else self.visit_UnaryOp(ast.UnaryOp(op=ast.Not(), operand=a.args[0]))
+        if len(node.ops) == 1 and isinstance(node.ops[0], (ast.Eq, ast.Is)):
+            # x.is_floating_point == True -> x.is_floating_point  (a flag named is_* / has_* is a bool)
+            for a, b in ((node.left, node.comparators[0]), (node.comparators[0], node.left)):
+                nm = a.attr if isinstance(a, ast.Attribute) else a.id if isinstance(a, ast.Name) else ""
+                if isinstance(b, ast.Constant) and isinstance(b.value, bool) and nm.startswith(("is_", "has_")) and _is_plain_ref(a):
+                    return a if b.value else self.visit_UnaryOp(ast.UnaryOp(op=ast.Not(), operand=a))
         if len(node.ops) == 1:
             # type(x) is T -> type(x) == T ;  x in [a, b] -> x in (a, b)
             if isinstance(node.ops[0], (ast.Is, ast.IsNot)) and isinstance(node.left, ast.Call) and isinstance(node.left.func, ast.Name) and node.left.func.id == "type":
@@ -1010,6 +1052,40 @@ class Path:
                 if atom == text:  # CanonStr equality canonicalises `text`
                     return pol
         return None
+
+
+def _is_plain_ref(e) -> bool:
+    """a name, an attribute / constant-or-name subscript chain of one, or an integer-valued shape query on one (x.numel(), x.dim(), x.size(i))"""
+    if isinstance(e, ast.Call) and isinstance(e.func, ast.Attribute) and e.func.attr in ("numel", "dim", "size", "nelement", "element_size") and not e.keywords \
+            and all(isinstance(a, (ast.Constant, ast.Name)) for a in e.args):
+        e = e.func.value
+    while isinstance(e, (ast.Attribute, ast.Subscript)):
+        if isinstance(e, ast.Subscript) and not isinstance(e.slice, (ast.Constant, ast.Name, ast.UnaryOp)):
+            return False
+        e = e.value
+    return isinstance(e, ast.Name)
+
+
+class _StripNoop(ast.NodeTransformer):
+    """Removes calls that keep the VALUES of a tensor expression: x.contiguous(), x.detach(), x.clone(), x.to(<y>.device), x.to(device=...)."""
+
+    def visit_Call(self, node):
+        self.generic_visit(node)
+        f = node.func
+        if isinstance(f, ast.Attribute):
+            if f.attr in ("contiguous", "detach", "clone") and not node.args and not node.keywords:
+                return f.value
+            if f.attr == "to":
+                a = [ast.unparse(x) for x in node.args]
+                k = {x.arg: ast.unparse(x.value) for x in node.keywords}
+                if (len(a) == 1 and not k and a[0].endswith(".device")) or (not a and set(k) == {"device"}):
+                    return f.value
+        return node
+
+
+def strip_noop_calls(e: ast.AST) -> ast.AST:
+    """Copy of `e` without value-preserving tensor calls (layout, graph membership, device): for rules about the values of a term only."""
+    return ast.fix_missing_locations(_StripNoop().visit(copy.deepcopy(e)))
 
 
 def strip_identity(e: ast.AST) -> ast.AST:
